@@ -43,8 +43,15 @@ def _ext(job, budget):
     return (re.sub(r"[0-9]+$", "", job) + str(budget), base)
 
 
-EXT = {"quick": [_ext("hof8", 6), _ext("recclo8", 6), _ext("rec6", 5), _ext("x_arr5", 4), _ext("x_matchst5", 4)],
-       "thorough": [_ext("hof8", 7), _ext("recclo8", 7), _ext("rec6", 6), _ext("x_arr5", 5), _ext("x_matchst5", 5)]}
+def _two_state_one_closure(rep):
+    """hofstate programs in which dsp makes at least two stateful calls and calls a closure"""
+    body = printer.program(rep["prog"]).split("fn dsp", 1)[1]
+    return body.count("counter(") + body.count("lag(") >= 2 and "inner(" in body
+
+
+EXT_FILTER = {"hofstate": (_two_state_one_closure, {"quick": 500, "thorough": 4000})}
+EXT = {"quick": [_ext("hofstate9", 9), _ext("hof8", 6), _ext("recclo8", 6), _ext("rec6", 5), _ext("x_arr5", 4), _ext("x_matchst5", 4)],
+       "thorough": [_ext("hofstate9", 9), _ext("hof8", 7), _ext("recclo8", 7), _ext("rec6", 6), _ext("x_arr5", 5), _ext("x_matchst5", 5)]}
 NSAMPLES = {"quick": 32, "thorough": 256}
 MUT_PER_FILE = {"quick": 2, "thorough": 12}
 RUSTDIR = os.path.join(vlib.WORK, "rust")
@@ -182,6 +189,11 @@ def run(tier):
     for label, consts in JOBS[tier] + EXT[tier]:
         reps = langpipe.generate(chk, label, consts, timeout=3000)
         live = [(i, r) for i, r in enumerate(reps) if not r["oom"]]
+        flt = EXT_FILTER.get(re.sub(r"[0-9]+$", "", label))
+        if flt:      # a structural subset, thinned out evenly (one rustc run per program)
+            live = [(i, r) for i, r in live if flt[0](r)]
+            live = live[::max(1, len(live) // flt[1][tier])]
+            chk.cov[f"{label}_selected"] = len(live)
         reqs = []
         for i, r in live:
             q = langpipe.to_request(i, r)
